@@ -411,7 +411,7 @@ func (r *resolver) applyDeviation(y *Module, d *Deviation) error {
 				// copies of a grouping's leaf-list share theirs, this one gets its own
 				ll.setDefault(append(append([]string{}, ll.defaultVals...), d.Add.Default()...))
 			} else {
-				if hasType.HasDefault() {
+				if hasType.HasDefault() || len(d.Add.Default()) > 1 {
 					return fmt.Errorf("default already set on %s", d.Ident())
 				}
 				for _, deflt := range d.Add.Default() {
